@@ -9,6 +9,7 @@ import (
 	"bytes"
 	"context"
 	"fmt"
+	"io"
 	"os"
 )
 
@@ -28,7 +29,7 @@ func VerifNewGuardTransfer(binary bool, maxBufSize int64, protocol int, timeoutS
 	return &VerifGuardTransfer{t, out}
 }
 
-func (g *VerifGuardTransfer) Feed(b []byte) { g.t.addReceivedData(b, false) }
+func (g *VerifGuardTransfer) Feed(b []byte)  { g.t.addReceivedData(b, false) }
 func (g *VerifGuardTransfer) Output() []byte { return g.out.Bytes() }
 
 func verifErr(err error) string {
@@ -143,4 +144,169 @@ func VerifUnmarshalTargetSize(js string) (size int64, errText string) {
 		return 0, verifErr(err)
 	}
 	return f.Size, ""
+}
+
+// ---- scanners of terminal output, user input and peer data (C12 group "scanners") ----
+
+// VerifScanner runs one scanner on the given chunks under recover. n is an extra integer
+// argument (an index, a destination length, a flag). It returns the size of what the scanner
+// produced / kept and the text of a panic ("" = none).
+func VerifScanner(fn string, chunks [][]byte, n int) (outLen int, panicText string) {
+	defer func() {
+		if r := recover(); r != nil {
+			panicText = fmt.Sprintf("panic: %v", r)
+		}
+	}()
+	first := func() []byte {
+		if len(chunks) == 0 {
+			return nil
+		}
+		return append([]byte(nil), chunks[0]...)
+	}
+	switch fn {
+	case "osc52":
+		old := writeToClipboard
+		written := 0
+		writeToClipboard = func(buf []byte) { written += len(buf) }
+		defer func() { writeToClipboard = old }()
+		filter := &TrzszFilter{}
+		for _, c := range chunks {
+			filter.detectOSC52(append([]byte(nil), c...))
+		}
+		if filter.osc52Sequence != nil {
+			written += filter.osc52Sequence.Len()
+		}
+		return written, ""
+	case "detect-client", "detect-relay", "detect-relay-tmux", "detect-client-tunnel":
+		d := newTrzszDetector(fn == "detect-relay" || fn == "detect-relay-tmux", fn == "detect-relay-tmux")
+		for _, c := range chunks {
+			out, _ := d.detectTrzsz(append([]byte(nil), c...), fn == "detect-client-tunnel")
+			outLen += len(out)
+		}
+		return outLen, ""
+	case "relay-suffix":
+		return len(newTrzszDetector(true, false).addRelaySuffix(first(), n)), ""
+	case "rewrite-trigger":
+		return len(newTrzszDetector(true, true).rewriteTrzszTrigger(first())), ""
+	case "zmodem":
+		if detectZmodem(first()) != nil {
+			return 1, ""
+		}
+		return 0, ""
+	case "drag":
+		files, _, _, _ := detectDragFiles(first())
+		return len(files), ""
+	case "drag-linux":
+		files, _, _ := detectDragFilesOnLinux(first())
+		return len(files), ""
+	case "drag-macos":
+		files, _, _ := detectDragFilesOnMacOS(first())
+		return len(files), ""
+	case "drag-windows":
+		files, _, _, _ := detectDragFilesOnWindows(first())
+		return len(files), ""
+	case "next-linux":
+		p, i := nextLinuxPath(first())
+		return len(p) + i, ""
+	case "next-win":
+		p, i := nextWinPath(first())
+		return len(p) + i, ""
+	case "next-msys":
+		p, i := nextMsysPath(first())
+		return len(p) + i, ""
+	case "next-cyg":
+		p, i := nextCygPath(first())
+		return len(p) + i, ""
+	case "unix2win": // callers guarantee at least "/x/"
+		return len(unixPathToWinPath(first())), ""
+	case "trimvt100":
+		return len(trimVT100(first())), ""
+	case "strip-tmux":
+		t := newTransfer(io.Discard, nil, false, nil)
+		return len(t.stripTmuxStatusLine(first())), ""
+	case "readline-windows":
+		b := newTrzszBuffer()
+		for _, c := range chunks {
+			b.addBuffer(append([]byte(nil), c...))
+		}
+		// two sentinels guarantee that the reader returns instead of waiting for more input
+		for i := 0; i < 4; i++ { // a call may need two of them (the first can end a VT100 sequence)
+			b.addBuffer([]byte("A!\n"))
+		}
+		for i := 0; i < 2; i++ {
+			line, err := b.readLineOnWindows(nil)
+			if err != nil {
+				break
+			}
+			outLen += len(line)
+		}
+		return outLen, ""
+	case "unescape":
+		var table *escapeTable
+		if n >= 0 {
+			t, err := escapeCharsToTable(verifEscapeCharsAny(n&1 == 1))
+			if err != nil {
+				return 0, "table: " + err.Error()
+			}
+			table = t
+		}
+		var dst []byte
+		if len(chunks) > 1 {
+			dst = make([]byte, len(chunks[1]))
+		}
+		out, rem, err := unescapeData(first(), table, dst)
+		if err != nil {
+			return 0, ""
+		}
+		return len(out) + len(rem), ""
+	case "escape-table":
+		var t escapeTable
+		if err := t.UnmarshalJSON(first()); err != nil {
+			return 0, ""
+		}
+		return t.totalCount, ""
+	case "archive-header":
+		jsonName, err := decodeString(string(first()))
+		if err != nil {
+			return 0, ""
+		}
+		f, err := unmarshalSourceFile(string(jsonName))
+		if err != nil {
+			return 0, ""
+		}
+		return len(f.getFileName()) + len(f.RelPath), ""
+	case "source-file":
+		f, err := unmarshalSourceFile(string(first()))
+		if err != nil {
+			return 0, ""
+		}
+		return len(f.getFileName()) + len(f.RelPath), ""
+	case "recv-line":
+		// recvLine's junk handling (tmux / windows) + recvCheck's splitting on what a peer sent
+		t := newTransfer(io.Discard, nil, false, nil)
+		t.transferConfig.TmuxOutputJunk = n&1 == 1
+		t.windowsProtocol = n&2 == 2
+		for _, c := range chunks {
+			t.addReceivedData(append([]byte(nil), c...), false)
+		}
+		for i := 0; i < 4; i++ {
+			t.addReceivedData([]byte("#SUCC:A!\n"), false)
+		}
+		for i := 0; i < 2; i++ {
+			s, err := t.recvCheck("SUCC", n&4 == 4, nil)
+			if err == nil {
+				outLen += len(s)
+			}
+		}
+		return outLen, ""
+	}
+	return 0, "unknown scanner " + fn
+}
+
+func verifEscapeCharsAny(escapeAll bool) []interface{} {
+	var out []interface{}
+	for _, p := range getEscapeChars(escapeAll) {
+		out = append(out, []interface{}{string(p[0]), string(p[1])})
+	}
+	return out
 }
